@@ -349,6 +349,11 @@ def s5_valuation(ctx):
     nps = normal(ps)
     for p in nps:
         cw = heap_writes(p, 'current_price')
+        if not cw and any(v_ and c_[0] == 'cmp' and c_[1] == '==' and {c_[2], c_[3]} == {A(V('self'), 'current_price') if False else ('attr', V('self'), 'current_price'), V('market_price')}
+                          for c_, v_, _ in p.conds):
+            # nothing to store: on this path the price given IS the price held (tested for equality)
+            ctx.holds('C02.S5', 'update_current_price stores the given price [%s]: the path tested that it equals the price already held' % cond_str(p)[:80], ctx.fn('Position.update_current_price').site())
+            continue
         ctx.require(len(cw) == 1 and cw[0].value == V('market_price'), 'C02.S5', 'update_current_price stores the given price [%s]' % cond_str(p),
                     cw[0].site if cw else ctx.fn('Position.update_current_price').site(),
                     __import__('qsverif.lib', fromlist=['read_marker']).read_marker(ctx, p) + str([fmt(w.value) for w in cw]), key='C02.S5|store')
